@@ -3,6 +3,7 @@ package eng
 import (
 	"go/ast"
 	"go/types"
+	"strings"
 )
 
 // IsCondOperand reports whether n lies inside the branch condition that ends some live block.
@@ -101,4 +102,51 @@ func (f *Fn) InNonNilArmOf(varName string, l Loc) bool {
 		}
 	}
 	return false
+}
+
+// UnderCond reports whether l lies in the true arm (single predecessor) of a branch whose
+// condition text contains all the given substrings.
+func (f *Fn) UnderCond(l Loc, substrs ...string) bool {
+	for _, b := range f.live {
+		c := condOf(b)
+		if c == nil {
+			continue
+		}
+		txt := types.ExprString(c)
+		all := true
+		for _, s := range substrs {
+			if !strings.Contains(txt, s) {
+				all = false
+			}
+		}
+		if all && len(f.predsOf(b.Succs[0])) == 1 && f.BlockDom(b.Succs[0], l.Blk) {
+			return true
+		}
+	}
+	return false
+}
+
+// CallMethodName returns the selector name of the call at l ("" if none).
+func CallMethodName(l Loc) string {
+	call, ok := l.Node.(*ast.CallExpr)
+	if !ok {
+		return ""
+	}
+	if s, ok := ast.Unparen(call.Fun).(*ast.SelectorExpr); ok {
+		return s.Sel.Name
+	}
+	return ""
+}
+
+// ReturnText prints the result list of a return location.
+func ReturnText(l Loc) string {
+	rs, ok := l.Node.(*ast.ReturnStmt)
+	if !ok {
+		return ""
+	}
+	var s []string
+	for _, r := range rs.Results {
+		s = append(s, types.ExprString(r))
+	}
+	return strings.Join(s, ", ")
 }
